@@ -49,11 +49,7 @@ def run(chk):
         try:
             d = dag.diff(val, "a1")
         except dag.Undecidable as e:
-            chk.fail("derivative-equals-integrand", qn,
-                     f"{label}: the extracted formula contains an operation with no derivative rule ({e}); the closed form "
-                     f"is not the antiderivative of the defining integrand", where=f.where,
-                     data={"formula": dag.to_str(dag.tonode(val))[:600]})
-            return val
+            chk.need(False, f"{label}: the extracted formula contains an operation with no derivative rule ({e})")
         ref = alg.integrand(n, bs, b0, a1)
         ok, info = dag.is_zero_fp([dag.sub(d, ref)], chk.seed, k)
         chk.decide(ok, "derivative-equals-integrand", qn,
